@@ -2,6 +2,8 @@ package main
 
 import (
 	"fmt"
+	"strings"
+	"sync"
 
 	"golang.org/x/tools/go/ssa"
 )
@@ -26,6 +28,19 @@ func (m *Machine) rangeOp(fr *Frame, in *ssa.Range) {
 		if x != nil {
 			it.Keys = append(it.Keys, x.Keys...)
 		}
+		// order-symbolic mode: this range may run in another order (reversed, rotated by one)
+		if K := m.ex.ex.cfg.MapOrder; K > 0 && len(it.Keys) > 1 && m.divergences < K && !m.inHarness(in) {
+			switch m.ex.choose(m, 3, "map order") {
+			case 1:
+				m.divergences++
+				for i, j := 0, len(it.Keys)-1; i < j; i, j = i+1, j-1 {
+					it.Keys[i], it.Keys[j] = it.Keys[j], it.Keys[i]
+				}
+			case 2:
+				m.divergences++
+				it.Keys = append(it.Keys[1:], it.Keys[0])
+			}
+		}
 		m.setResult(fr, in, it)
 	case string:
 		m.setResult(fr, in, &StrIter{S: x})
@@ -42,13 +57,6 @@ func (m *Machine) nextOp(g *G, fr *Frame, in *ssa.Next) {
 		}
 		for len(it.Keys) > 0 {
 			pick := 0
-			if K := m.ex.ex.cfg.MapOrder; K > 0 && len(it.Keys) > 1 && (it.deviated || m.divergences < K) {
-				pick = m.ex.choose(m, len(it.Keys), "map order")
-				if pick != 0 && !it.deviated {
-					it.deviated = true
-					m.divergences++
-				}
-			}
 			k := it.Keys[pick]
 			it.Keys = append(append([]Value{}, it.Keys[:pick]...), it.Keys[pick+1:]...)
 			it.I++
@@ -80,3 +88,23 @@ func (m *Machine) nextOp(g *G, fr *Frame, in *ssa.Next) {
 		m.fail("unsupported", "next on unknown iter")
 	}
 }
+
+// inHarness: the instruction belongs to a harness overlay file (order-symbolic ranges apply to the code under test only)
+func (m *Machine) inHarness(in ssa.Instruction) bool {
+	if in == nil || in.Parent() == nil {
+		return false
+	}
+	f := in.Parent()
+	for f.Parent() != nil {
+		f = f.Parent()
+	}
+	if v, ok := harnessFnCache.Load(f); ok {
+		return v.(bool)
+	}
+	p := m.prog.Fset.Position(f.Pos())
+	is := strings.Contains(p.Filename, "zz_verif_")
+	harnessFnCache.Store(f, is)
+	return is
+}
+
+var harnessFnCache sync.Map
